@@ -96,7 +96,7 @@ pub fn generated_seeds(thorough: bool) -> Vec<Seed> {
         }
         for combo in Combo::all() {
             let set: Vec<Arg> = Tr::ALL.iter().map(|&t| combo.get(t)).filter(|a| *a != Arg::None).collect();
-            if set.len() != 2 || !set.iter().all(|a| matches!(a, Arg::Key | Arg::By)) || set[0] == set[1] || !combo.uses_only_recognised(derived) {
+            if set.len() != 2 || !set.iter().all(|a| matches!(a, Arg::Key | Arg::By)) || (set[0] == Arg::By && set[1] == Arg::By) || !combo.uses_only_recognised(derived) {
                 continue;
             }
             if !derived.iter().all(|&t| ref_accept(&combo, t)) {
@@ -106,6 +106,10 @@ pub fn generated_seeds(thorough: bool) -> Vec<Seed> {
             v.push(seed(&format!("gen:cmp2:{}", combo.describe()), attr, &it.print()));
         }
     }
+    // comparison functions written as closures
+    v.push(seed("gen:cmp-closure", "PartialEq", "struct X(#[partial_eq(by = |a: &u8, b: &u8| a == b)] u8, u8);"));
+    v.push(seed("gen:cmp-closure", "Ord, PartialOrd, Eq, PartialEq", "struct X { #[ord(by = |a: &f64, b: &f64| a.total_cmp(b), reverse)] a: f64, b: u8 }"));
+    v.push(seed("gen:cmp-closure", "Hash, PartialEq", "enum X { A(#[hash(by = |a: &u8, s| ::core::hash::Hash::hash(&(*a / 2), s))] #[partial_eq(by = |a: &u8, b: &u8| a / 2 == b / 2)] u8), B }"));
     // generic comparison with bounds
     v.push(seed("gen:cmp-bound", "PartialEq, PartialOrd, bound(T: Copy, ..)", "#[partial_ord(bound(T: PartialOrd))] struct X<T>(#[partial_eq(bound(..))] T, Option<T>);"));
     v.push(seed("gen:cmp-bound-enum", "Eq, PartialEq, Hash", "#[eq(bound(T: Eq))] enum X<T> { #[derive_ex(Hash(bound(T: ::core::hash::Hash)))] A(T), #[hash(bound(..))] B { #[eq(key = $.len())] x: Vec<T> } }"));
